@@ -89,7 +89,7 @@ def default_dirs_agree(ctx: Ctx, v, rule: str) -> int:
                 terms = []
                 for a in c.args[:2]:
                     t = sm.expr_terms.get(id(a))
-                    arms = list(t[1:]) if isinstance(t, tuple) and t and t[0] == "phi" else [t]
+                    arms = list(t[1:]) if isinstance(t, tuple) and t and t[0] in ("phi", "bool") else [t]  # `given or default`
                     arms = [flatten(x) for x in arms if not (isinstance(x, tuple) and x and x[0] == "sym")]
                     terms.append(arms)
                 found[q] = (f, c, terms)
